@@ -116,7 +116,7 @@ CHECKS = {
     "C06": dict(level="exploration", engine="seqmc", design="5/C06",
                 technique="bounded-exhaustive enumeration of a lexeme text space and of all single-token edits of "
                           "repository files, executed on the real lexer/parser/semantic analysis",
-                text="Every string over a 108-lexeme alphabet up to length 3 (4 over a 55-lexeme core alphabet, 6 over the "
+                text="Every string over a 110-lexeme alphabet up to length 3 (4 over a 55-lexeme core alphabet, 6 over the "
                      "delimiter alphabet in the thorough tier) in 12 syntactic contexts, every repository source file and "
                      "every single-token edit of it go through the real parser; the shorter texts and all repository files "
                      "also through the real semantic analysis; oracle: no panic, no hang, diagnostic spans inside the file, "
